@@ -59,7 +59,7 @@ def check(index, ctx):
             gw_task = [e for e in gw if e["target"] == [ta]]
             gw_sh = [e for e in gw if e["target"] == [sa]]
             gw_other = [e for e in gw if e not in gw_task and e not in gw_sh]
-            st = [e for e in _pipe.evs(res, "pack") if e["fn"] == "stack"]
+            st = [e for e in _pipe.evs(res, "pack") if e["fn"] == "stack" and not _pipe.in_stage(e)]  # (row blocks re-assembled inside the Jacobian stage are C07's)
             problems = []
             if other:
                 problems.append(f"{other[0]['loc']}: a differentiation of {atoms_of_desc(other[0]['outputs'])} that is neither a task loss nor the features")
